@@ -208,6 +208,11 @@ func (s *session) checkCur(cur []*entry, t int, group string) {
 		if e.dead {
 			continue
 		}
+		if group != "read-accessors" && component(e.Acc) == "response" {
+			// values read from the RESPONSE are legitimately affected by the handler's own
+			// response writes; the statement speaks of values derived from the request
+			continue
+		}
 		s.checked++
 		if e.intact() {
 			continue
